@@ -32,9 +32,12 @@ try:
     ddir = re.sub(r"^(\./)?", "", ddir)
     dcmd = meta.get("demo_command", "")
     denv = dict(env)
+    seen_env = set()
     for kv in re.findall(r"\b([A-Z][A-Z0-9_]+)=([^\s;,)]+)", meta.get("demo_env", "") or ""):
-        if kv[0] not in ("GOFLAGS", "GOPROXY", "GOSUMDB", "GOTOOLCHAIN"):
+        if kv[0] not in ("GOFLAGS", "GOPROXY", "GOSUMDB", "GOTOOLCHAIN") and kv[0] not in seen_env:
+            # free-text demo_env may list alternatives ("or GODEBUG=...", "passes with GODEBUG=..."): the first one counts
             denv[kv[0]] = kv[1]
+            seen_env.add(kv[0])
     # the recorded command may carry free text after the command proper: keep the first command only
     dcmd = re.split(r"\s{2,}\(|\s+\(also|\s+#", dcmd)[0].strip()
     # keep only the `go test/run ...` part: the tool copies the demo files itself and runs in the worktree
